@@ -125,6 +125,8 @@ def run(tier, seed, rng):
             cfg['compute_method'] = 'inverse'; cfg['compute_eigenvalue_outer_product'] = False; cfg['symmetry_aware'] = True
             if mode in ('none', 'huge'):
                 cfg['kl_clip'] = 1e-6
+        if k % 5 == 4:
+            cfg['grad_scale'] = rng.choice([1024.0, 65536.0])
         zero = rng.random() < 0.1
         if zero:
             cfg['zero_grads'] = True
